@@ -200,13 +200,14 @@ META = {
     "category": "proof",
     "technique": "Coq proof (R instance of a hand model of the recording logic of both backends and of pulser's "
                  "time gate / store) + bit-exact PrimFloat correspondence with real emu-sv / emu-mps / DMRG runs",
-    "text": ("Proved for all grids, observable lists and tolerances: a run on a separated grid never trips pulser's "
-             "store/uniqueness checks; an observable is recorded at grid index k iff both time gates accept t_k, with "
-             "the value computed after exactly k solver steps, in increasing order; every requested time is recorded "
-             "exactly once; observables using the default times, and observables whose own times are not within "
-             "pulser's tolerance 0.5/T of a default time, are recorded at nothing else. Refuted: an observable with "
-             "own times is also recorded at nearby default times (F-07); binary64 near-duplicates make the run raise "
-             "(F-08). Validated only: model == code (bit-exact on generated runs)."),
+    "text": ("Proved for all durations, dt, observable lists (adapter + backend composed, the grid separation is "
+             "derived from the C21 grid theorem, no premise): the pipeline never trips pulser's store/uniqueness "
+             "checks; an observable is recorded at grid index k iff both time gates accept t_k, with the value "
+             "computed after exactly k solver steps, in strictly increasing time order; statistics once per step. "
+             "Under an input-sanity premise (distinct candidate times are not within 2e-10 relative unless within "
+             "1e-12): every stored time is within 1e-12 of a time requested for that observable, every requested "
+             "time has exactly one stored value. Former findings F-07/F-08 are float regressions that now pass. "
+             "Validated only: model == code (bit-exact on generated runs)."),
     "note": ("Trusted: Coq kernel+VM, stdlib real-number axioms, the hand model (tied by correspondence), "
              "PrimFloat==binary64, pulser-core 1.9.1. What each observable computes from the state is C13."),
 }
